@@ -5,7 +5,9 @@
 -/
 import Proofs.XdrBasic
 import Proofs.XdrEnc
+import Proofs.XdrDec
 import PydapModel.XdrSrc
+import Mathlib.Tactic.Ring
 namespace Pydap.Xdr
 
 /-! ### the loop over blocks is the logical order -/
@@ -183,7 +185,7 @@ def NChar.narrow : NChar → Bool
 theorem readElem_in_range (a : NpArr) (ty : Ty) (hty : a.ty? = some ty) (hn : a.char.narrow = true) (addr : Int) :
     ∃ v, readElem a addr = .num v ∧ wfVal ty (.num v) = true := by
   have hlen : ∀ w, ((a.buf.drop addr.toNat).take w).length ≤ w := by
-    intro w; simp [List.length_take]; omega
+    intro w; rw [List.length_take]; exact Nat.min_le_left _ _
   unfold NpArr.ty? at hty
   cases hc : a.char <;> simp [hc, NChar.narrow] at hn
   all_goals
@@ -372,5 +374,278 @@ theorem encSrcs_eq : ∀ (cs : List Src) (ts : List Tmpl) (ds : List Data), Src.
         simp [encSrcs, XdrSpec.encs, encSrc_eq c p.1 p.2 (by rw [h1]) hw.1,
           encSrcs_eq cs q.1 q.2 (by rw [h2]) hw.2]
 end
+
+/-! ### the builder `storeC`: a C-contiguous array holds what it was given -/
+
+theorem range_mul_flatMap {α : Type} (g : Nat → α) (m : Nat) : ∀ n,
+    (List.range n).flatMap (fun i => (List.range m).map fun j => g (i * m + j)) = (List.range (n * m)).map g
+  | 0 => by simp
+  | n + 1 => by
+    rw [List.range_succ, List.flatMap_append, range_mul_flatMap g m n, Nat.succ_mul, List.range_add]
+    simp
+
+/-- C strides of items of `w` bytes -/
+def cstrides (w : Nat) : List Nat → List Int
+  | [] => []
+  | _ :: sh => ((w * prod sh : Nat) : Int) :: cstrides w sh
+
+theorem elemsAt_cstrides (a : NpArr) (w : Nat) : ∀ (sh : List Nat) (k : Nat),
+    elemsAt a sh (cstrides w sh) ((k * w : Nat) : Int) =
+      (List.range (prod sh)).map fun j => readElem a (((k + j) * w : Nat) : Int)
+  | [], k => by simp [elemsAt, prod]
+  | n :: sh, k => by
+    simp only [elemsAt, cstrides, prod]
+    have : ∀ i : Nat, ((k * w : Nat) : Int) + (i : Int) * ((w * prod sh : Nat) : Int)
+        = (((k + i * prod sh) * w : Nat) : Int) := by
+      intro i; push_cast; ring
+    simp only [this, elemsAt_cstrides a w sh]
+    have := range_mul_flatMap (fun r => readElem a (((k + r) * w : Nat) : Int)) (prod sh) n
+    simp only [Nat.add_assoc] at this ⊢
+    exact this
+
+theorem storeC_strides (w : Nat) : ∀ sh : List Nat,
+    (List.range sh.length).map (fun k => ((w * prod (sh.drop (k + 1)) : Nat) : Int)) = cstrides w sh
+  | [] => rfl
+  | n :: sh => by
+    rw [List.length_cons, List.range_succ_eq_map]
+    simp only [List.map_cons, List.map_map, cstrides]
+    congr 1
+    rw [← storeC_strides w sh]
+    apply List.map_congr_left
+    intro k _
+    simp
+
+theorem drop_take_flatten (w : Nat) : ∀ (items : List Bytes) (j : Nat) (hj : j < items.length),
+    (∀ it ∈ items, it.length = w) → (items.flatten.drop (j * w)).take w = items[j]
+  | [], j, hj, _ => by simp at hj
+  | it :: items, 0, _, h => by
+    have := h it (by simp)
+    simp [← this]
+  | it :: items, j + 1, hj, h => by
+    have h0 := h it (by simp)
+    have : (j + 1) * w = it.length + j * w := by rw [h0]; ring
+    have ih := drop_take_flatten w items j (by simpa using hj) (fun x hx => h x (by simp [hx]))
+    simp only [List.flatten_cons, this, List.getElem_cons_succ]
+    rw [← List.drop_drop, List.drop_left]
+    exact ih
+
+theorem itemBytes_length (big : Bool) (w : Nat) (v : Int) : (itemBytes big w v).length = w := by
+  unfold itemBytes; split <;> simp
+
+theorem itemNat_itemBytes (big : Bool) (w : Nat) (v : Int) :
+    itemNat big (itemBytes big w v) = (v % ((256 : Int) ^ w)).toNat % 256 ^ w := by
+  unfold itemNat itemBytes
+  cases big <;> simp [beNat_be]
+
+theorem decode_itemBytes (c : NChar) (big : Bool) (v : Int) (hv : c.holds v = true) :
+    (match c.kind with
+     | .int => Elem.num (toSigned c.size (itemNat big (itemBytes big c.size v)))
+     | .uint => Elem.num (itemNat big (itemBytes big c.size v))
+     | .float => Elem.num (itemNat big (itemBytes big c.size v))
+     | _ => Elem.num 0) = Elem.num v := by
+  cases c <;> simp [NChar.holds, NChar.kind, NChar.size] at hv ⊢
+  all_goals
+    first
+      | (have hv2 := of_decide_eq_true hv
+         rw [itemNat_itemBytes]
+         simp [toSigned]
+         try split
+         all_goals omega)
+      | (rw [itemNat_itemBytes]
+         simp [toSigned]
+         try split
+         all_goals omega)
+
+theorem readElem_storeC (c : NChar) (big : Bool) (sh : List Nat) (vs : List Int) (j : Nat) (hj : j < vs.length)
+    (hv : c.holds vs[j] = true) :
+    readElem (storeC c big sh vs) (((0 + j) * c.size : Nat) : Int) = .num vs[j] := by
+  have hsz : (storeC c big sh vs).itemsize = c.size := by
+    cases c <;> simp [NChar.holds, NChar.kind] at hv <;> rfl
+  have hbuf : ((storeC c big sh vs).buf.drop (j * c.size)).take c.size = itemBytes big c.size vs[j] := by
+    have := drop_take_flatten c.size (vs.map (itemBytes big c.size)) j (by simpa using hj)
+      (by intro it hit; simp at hit; obtain ⟨v, _, rfl⟩ := hit; exact itemBytes_length _ _ _)
+    simpa [storeC] using this
+  unfold readElem
+  simp only [hsz, Nat.zero_add, Int.toNat_natCast, hbuf]
+  have hd := decode_itemBytes c big vs[j] hv
+  have hk : (storeC c big sh vs).char = c := rfl
+  have hb : (storeC c big sh vs).big = big := rfl
+  rw [hk, hb]
+  cases c <;> simp [NChar.holds, NChar.kind] at hv <;> simpa [NChar.kind] using hd
+
+/-- **the builder holds what it was given**: a C-contiguous array of dtype char `c` (any numeric char, either byte
+    order, any shape) built from in-range values reads back exactly those values in logical order -/
+theorem storeC_elems (c : NChar) (big : Bool) (sh : List Nat) (vs : List Int) (hlen : vs.length = prod sh)
+    (hv : ∀ v ∈ vs, c.holds v = true) : (storeC c big sh vs).elems = vs.map Elem.num := by
+  unfold NpArr.elems
+  have hs : (storeC c big sh vs).strides = cstrides c.size sh := storeC_strides c.size sh
+  have ho : (((storeC c big sh vs).offset : Nat) : Int) = ((0 * c.size : Nat) : Int) := by simp [storeC]
+  have hsh : (storeC c big sh vs).shape = sh := rfl
+  rw [hs, ho, hsh, elemsAt_cstrides, ← hlen]
+  apply List.ext_getElem
+  · simp
+  · intro j h1 h2
+    simp only [List.getElem_map, List.getElem_range]
+    have hj : j < vs.length := by simpa using h1
+    exact readElem_storeC c big sh vs j hj (hv _ (List.getElem_mem hj))
+
+/-! ### scalars in every form and the general path of `_sequencetype` -/
+
+theorem rstrip0_append_zeros (b : Bytes) (k : Nat) : rstrip0 (b ++ zeros k) = rstrip0 b := by
+  unfold rstrip0 zeros
+  simp only [List.reverse_append, List.reverse_replicate]
+  congr 1
+  induction k with
+  | zero => simp
+  | succ k ih => simp [List.replicate_succ, ih]
+
+theorem rstripZ_append_zeros (l : List Nat) (k : Nat) : rstripZ (l ++ List.replicate k 0) = rstripZ l := by
+  unfold rstripZ
+  simp only [List.reverse_append, List.reverse_replicate]
+  congr 1
+  induction k with
+  | zero => simp
+  | succ k ih => simp [List.replicate_succ, ih]
+
+theorem rstripZ_nonzero (l : List Nat) (h : ∀ x ∈ l, x ≠ 0) : rstripZ l = l := by
+  unfold rstripZ
+  cases hr : l.reverse with
+  | nil => simp at hr; simp [hr]
+  | cons x xs =>
+    have hx : x ≠ 0 := h x (by rw [← List.mem_reverse, hr]; simp)
+    have : l = (x :: xs).reverse := by rw [← hr, List.reverse_reverse]
+    simp [hx, this]
+
+theorem groups4_flatten : ∀ (items : List Bytes), (∀ it ∈ items, it.length = 4) → groups4 items.flatten = items
+  | [], _ => by simp [groups4]
+  | it :: items, h => by
+    have h0 := h it (by simp)
+    match it, h0 with
+    | [a, b, c, d], _ =>
+      simp only [List.flatten_cons, List.cons_append, List.nil_append, groups4]
+      rw [groups4_flatten items (fun x hx => h x (by simp [hx]))]
+
+theorem take_all {α : Type} (l : List α) (n : Nat) (h : l.length = n) : l.take n = l := by
+  subst h; simp
+
+theorem printable_nonzero (cps : List Nat) (ha : cps.all (· < 128) = true)
+    (hp : (cps.map UInt8.ofNat).all printable = true) : ∀ x ∈ cps, x ≠ 0 := by
+  intro x hx h0
+  subst h0
+  have := (List.all_eq_true.mp hp) (UInt8.ofNat 0) (List.mem_map.mpr ⟨0, hx, rfl⟩)
+  simp [printable] at this
+
+theorem itemNat_unit (big : Bool) (cp : Nat) (h : cp < 4294967296) : itemNat big (itemBytes big 4 (cp : Int)) = cp := by
+  rw [itemNat_itemBytes]
+  omega
+
+theorem flatten_length_const (w : Nat) : ∀ (items : List Bytes), (∀ it ∈ items, it.length = w) →
+    items.flatten.length = w * items.length
+  | [], _ => by simp
+  | it :: items, h => by
+    simp only [List.flatten_cons, List.length_append, List.length_cons, h it (by simp),
+      flatten_length_const w items (fun x hx => h x (by simp [hx]))]
+    rw [Nat.mul_succ, Nat.add_comm]
+
+theorem toArr_data (big : Bool) (c : Cell) (ty : Ty) (v : Val) (hv : c.val? = some v) (hok : c.ok = true)
+    (hty : c.ty? = some ty) (hw : wfVal ty v = true) :
+    (c.toArr big).ty? = some ty ∧ (c.toArr big).shape = [] ∧ (c.toArr big).data? = some (.scalar v) := by
+  cases c with
+  | num ch n =>
+    simp [Cell.val?] at hv; subst hv
+    refine ⟨hty, rfl, ?_⟩
+    have h := readElem_storeC ch big [] [n] 0 (by simp) (by simpa [Cell.ok] using hok)
+    simp only [Nat.zero_add, Nat.zero_mul, List.getElem_cons_zero] at h
+    show (storeC ch big [] [n]).data? = _
+    unfold NpArr.data?
+    simp only [show (storeC ch big [] [n]).shape = [] from rfl, List.isEmpty_nil, if_true,
+      show (storeC ch big [] [n]).offset = 0 from rfl]
+    rw [h]
+    rfl
+  | bstr b =>
+    simp [Cell.val?] at hv; subst hv
+    have hS : tyOfNumpyChar "S" = some .string := by decide
+    have : ty = .string := by
+      simp only [Cell.ty?, Cell.char, NChar.code, hS] at hty; exact (Option.some.inj hty).symm
+    subst this
+    simp only [wfVal, Bool.and_eq_true] at hw
+    refine ⟨by simp [NpArr.ty?, Cell.toArr, NChar.code, hS], rfl, ?_⟩
+    simp only [NpArr.data?, Cell.toArr, List.isEmpty_nil, if_true, readElem, NChar.kind, NpArr.itemsize,
+      Int.toNat_natCast, List.drop_zero]
+    rw [take_all _ _ (by simp [sItem]; try omega)]
+    simp [sItem, rstrip0_append_zeros, rstrip0_printable b hw.1, Elem.val?]
+  | ustr cps =>
+    simp only [Cell.val?] at hv
+    split at hv
+    · rename_i ha
+      simp at hv; subst hv
+      have hU : tyOfNumpyChar "U" = some .string := by decide
+      have : ty = .string := by
+        simp only [Cell.ty?, Cell.char, NChar.code, hU] at hty; exact (Option.some.inj hty).symm
+      subst this
+      simp only [wfVal, Bool.and_eq_true] at hw
+      refine ⟨by simp [NpArr.ty?, Cell.toArr, NChar.code, hU], rfl, ?_⟩
+      simp only [NpArr.data?, Cell.toArr, List.isEmpty_nil, if_true, readElem, NChar.kind, NpArr.itemsize,
+        Int.toNat_natCast, List.drop_zero]
+      have hlen : (uItem big (max cps.length 1) cps).length = 4 * max cps.length 1 := by
+        unfold uItem
+        rw [flatten_length_const 4 _ (by intro it hit; obtain ⟨cp, _, rfl⟩ := List.mem_map.mp hit; exact itemBytes_length _ _ _)]
+        simp
+        try omega
+      rw [take_all _ _ hlen]
+      unfold uItem
+      rw [groups4_flatten _ (by intro it hit; obtain ⟨cp, _, rfl⟩ := List.mem_map.mp hit; exact itemBytes_length _ _ _)]
+      have hmap : ((cps ++ List.replicate (max cps.length 1 - cps.length) 0).map
+          fun (cp : Nat) => itemBytes big 4 (cp : Int)).map (itemNat big)
+          = cps ++ List.replicate (max cps.length 1 - cps.length) 0 := by
+        rw [List.map_map]
+        conv => rhs; rw [← List.map_id (cps ++ _)]
+        apply List.map_congr_left
+        intro cp hcp
+        simp only [Function.comp, id]
+        apply itemNat_unit
+        rcases List.mem_append.mp hcp with h | h
+        · have := (List.all_eq_true.mp ha) cp h
+          simp at this; omega
+        · simp at h; omega
+      rw [hmap, rstripZ_append_zeros, rstripZ_nonzero cps (printable_nonzero cps ha hw.1)]
+      simp [Elem.val?, ha]
+    · simp at hv
+
+/-- a scalar in any of its forms is sent as the reference encoding of its value -/
+theorem encArr_toArr (big : Bool) (c : Cell) (ty : Ty) (v : Val) (hv : c.val? = some v) (hok : c.ok = true)
+    (hty : c.ty? = some ty) (hw : wfVal ty v = true) :
+    encArr (c.toArr big) = .ok (XdrSpec.enc (.base ty []) (.scalar v)) := by
+  obtain ⟨h1, h2, h3⟩ := toArr_data big c ty v hv hok hty hw
+  have := encArr_eq_spec (c.toArr big) ty (.scalar v) h1 h3 (by rw [h2]; simpa [WF] using hw)
+  rw [h2] at this
+  exact this
+
+theorem encCellsGeneral_of_vals : ∀ (tys : List Ty) (cs : List (Bool × Cell)) (vs : List Val),
+    cellVals? (cs.map (·.2)) = some vs → (∀ c ∈ cs, c.2.ok = true) → cs.map (·.2.ty?) = tys.map some →
+    WFs (tys.map fun ty => .base ty []) (vs.map Data.scalar) = true →
+    encCellsGeneral cs = .ok (XdrSpec.encs (tys.map fun ty => .base ty []) (vs.map Data.scalar))
+  | [], [], vs, hv, _, _, _ => by simp [cellVals?] at hv; subst hv; simp [encCellsGeneral, XdrSpec.encs]
+  | [], _ :: _, _, _, _, ht, _ => by simp at ht
+  | _ :: _, [], _, _, _, ht, _ => by simp at ht
+  | ty :: tys, c :: cs, vs, hv, hok, ht, hw => by
+    simp only [List.map_cons, cellVals?] at hv
+    cases h1 : c.2.val? with
+    | none => simp [h1] at hv
+    | some v =>
+      cases h2 : cellVals? (cs.map (·.2)) with
+      | none => simp [h1, h2] at hv
+      | some vs' =>
+        simp [h1, h2] at hv
+        subst hv
+        simp only [List.map_cons, List.cons.injEq] at ht
+        simp only [List.map_cons, WFs, WF, Bool.and_eq_true] at hw
+        have e1 := encArr_toArr c.1 c.2 ty v h1 (hok c (by simp)) ht.1 hw.1
+        have e2 := encCellsGeneral_of_vals tys cs vs' h2 (fun x hx => hok x (by simp [hx])) ht.2 hw.2
+        simp [encCellsGeneral, e1, e2, XdrSpec.encs]
+
+theorem valsOf_nums : ∀ vs : List Int, valsOf? (vs.map Elem.num) = some (vs.map Val.num)
+  | [] => rfl
+  | v :: vs => by simp [valsOf?, Elem.val?, valsOf_nums vs]
 
 end Pydap.Xdr
